@@ -281,7 +281,7 @@ let () =
            else match String.split_on_char '\t' l with
              | [t; kind; cls; id; snap] ->
                if kind = "api" && cls = "END" then raise End_of_file;
-               evs := { task = int_of_string t; kind; cls; id = int_of_string id; snap; used = false } :: !evs
+               evs := { task = int_of_string t; kind; cls; id = (match int_of_string_opt id with Some n -> n | None -> -1 (* usize::MAX: the kicked waiter is already gone *)); snap; used = false } :: !evs
              | _ -> ()
          done with End_of_file -> close_in ic);
       let evs = Array.of_list (List.rev !evs) in
